@@ -8,6 +8,8 @@ import (
 	"encoding/base64"
 	"encoding/binary"
 	"fmt"
+	"os"
+	"sort"
 	"strings"
 	"sync"
 
@@ -79,6 +81,7 @@ type collector struct {
 	opcodes  map[string]int
 	total    int
 	cdna3    bool
+	journal  *os.File // full mode: every start / completion is appended at once (survives a crash)
 }
 
 type taskRef struct {
@@ -134,6 +137,9 @@ func (c *collector) note(r *wfRec, pc uint64, in *insts.Inst) *Ev {
 	}
 	ev := &Ev{PC: pc, Fmt: f, Op: o, Name: in.InstName, FN: strings.ToLower(in.Format.FormatName)}
 	r.evs = append(r.evs, ev)
+	if c.journal != nil {
+		fmt.Fprintf(c.journal, "S %s %d %s %d %s\n", r.key, len(r.evs)-1, ev.FN, o, in.InstName)
+	}
 	return ev
 }
 
@@ -263,8 +269,18 @@ func (c *collector) Func(ctx sim.HookCtx) {
 // memAccess records the lane addresses (and store data) of a FLAT access the
 // way the emulation ALU computes them.
 func (c *collector) memAccess(w regReader, in *insts.Inst) string {
+	return c.memAccessMode(w, in, false)
+}
+
+// memAccessMode: timingRule selects the address rule of the timing coalescer
+// (cu.defaultCoalescer.readFlatAddr: scalar base iff the decoded address
+// operand is one register wide) instead of the emulation ALU's.
+func (c *collector) memAccessMode(w regReader, in *insts.Inst, timingRule bool) string {
 	raw := binary.LittleEndian.AppendUint64(nil, w.EXEC())
 	hasS := in.SAddr != nil && in.SAddr.IntValue != 0x7F && (c.cdna3 || in.SAddr.IntValue != 0)
+	if timingRule {
+		hasS = in.Addr != nil && in.Addr.RegCount == 1 && in.SAddr != nil
+	}
 	var base uint64
 	if hasS {
 		r := int(in.SAddr.IntValue)
@@ -323,6 +339,9 @@ func (c *collector) StartTask(t tracing.Task) {
 		if len(r.evs) == 1 {
 			ev.Init = initState(wf)
 		}
+		if in.Inst.FormatType == insts.FLAT {
+			ev.Mem = c.memAccessMode(wf, in.Inst, true)
+		}
 		c.byTask[t.ID] = taskRef{rec: r, idx: len(r.evs) - 1, wf: wf, in: in.Inst}
 	}
 }
@@ -341,11 +360,40 @@ func (c *collector) EndTask(t tracing.Task) {
 	ev := ref.rec.evs[ref.idx]
 	if !ev.Done {
 		c.state(ev, ref.wf, ref.in)
+		if c.journal != nil {
+			fmt.Fprintf(c.journal, "D %s %d\n", ref.rec.key, ref.idx)
+		}
 	}
 }
 
 func (c *collector) StepTask(t tracing.Task)             {}
 func (c *collector) AddMilestone(m tracing.Milestone)    {}
+
+// abiFlags lists the optional ABI registers the launched code objects ask for.
+func (c *collector) abiFlags() []string {
+	c.mu.Lock()
+	defer c.mu.Unlock()
+	set := map[string]bool{}
+	for raw := range c.recs {
+		co := raw.CodeObject
+		if co == nil {
+			continue
+		}
+		for name, on := range map[string]bool{"private_segment_buffer": co.EnableSgprPrivateSegmentBuffer, "dispatch_ptr": co.EnableSgprDispatchPtr,
+			"queue_ptr": co.EnableSgprQueuePtr, "dispatch_id": co.EnableSgprDispatchID, "flat_scratch_init": co.EnableSgprFlatScratchInit,
+			"private_segment_size": co.EnableSgprPrivateSegmentSize, "grid_workgroup_count": co.EnableSgprGridWorkgroupCountX} {
+			if on {
+				set[name] = true
+			}
+		}
+	}
+	var out []string
+	for f := range set {
+		out = append(out, f)
+	}
+	sort.Strings(out)
+	return out
+}
 
 func (c *collector) summaries() map[string]WfSum {
 	c.mu.Lock()
